@@ -203,7 +203,7 @@ func parseRawSuite(raw string) (SuiteConfig, error) {
 	dataInput := parts[2]
 
 	// minimal checks
-	if !strings.HasPrefix(parts[0], "OCRA-1") {
+	if parts[0] != "OCRA-1" {
 		return SuiteConfig{}, fmt.Errorf("unsupported OCRA version: %q", parts[0])
 	}
 
@@ -311,9 +311,13 @@ func parseDataInputTokens(cfg *SuiteConfig, input string) error {
 				return fmt.Errorf("invalid time spec %q: %w", tok, err)
 			}
 			cfg.TimeStep = secs
-		case strings.HasPrefix(tokU, "S"): // session data e.g. "S064"?
+		case strings.HasPrefix(tokU, "S"): // session data: "S" or "Snnn", e.g. "S064"
+			if len(tokU) != 1 {
+				if _, err := strconv.ParseUint(tokU[1:], 10, 16); err != nil || len(tokU) != 4 {
+					return fmt.Errorf("unknown data input token %q", tok)
+				}
+			}
 			cfg.IncludeSession = true
-			// parse length if needed
 		default:
 			// unrecognized token
 			return fmt.Errorf("unknown data input token %q", tok)
